@@ -210,6 +210,43 @@ fn roundtrip<T: Object + ObjectWrite>(st: &mut St, p: Primitive, next_id: usize)
     Ok(out)
 }
 
+/// a value as the builder / importer makes it: the typed fields only, nothing carried in the catch-all (`#[pdf(other)]`) field
+trait Fresh { fn clear_other(&mut self); }
+macro_rules! fresh { ( $( $t:ty : $f:ident ),* $(,)? ) => { $( impl Fresh for $t { fn clear_other(&mut self) { self.$f = Dictionary::new(); } } )* } }
+fresh! { Page: other, PostScriptDict: other, ImageDict: other, FormDict: other, SeedValueDictionary: other, SignatureDictionary: other,
+         SignatureReferenceDictionary: other, Annot: other, FieldDictionary: other, pdf::font::CIDFont: _other }
+
+/// read the dictionary, empty the catch-all field, write; then the ordinary read -> write step on what was written.
+/// Fields as typed_roundtrip: r1 w1 c1 r2 w2 c2
+fn roundtrip_fresh<T: Object + ObjectWrite + Fresh>(st: &mut St, p: Primitive, next_id: usize) -> R {
+    let mut next = next_id;
+    let v = { let r = st.resolver(); T::from_primitive(p, &r) };
+    let mut v = match v { Ok(v) => v, Err(e) => return Ok(vec![chain(&e).into_bytes()]) };
+    v.clear_other();
+    let q = match v.to_primitive(st) { Ok(q) => q, Err(e) => return Ok(vec![b"ok".to_vec(), format!("!{}", chain(&e)).into_bytes()]) };
+    let c = created(st, next);
+    { let r = st.resolver(); while r.resolve(PlainRef { id: next as u64, gen: 0 }).is_ok() { next += 1; } }
+    let mut out = vec![b"ok".to_vec(), cs(&q), c];
+    let (o2, _) = step_rw::<T>(st, q, &mut next, false);
+    out.extend(o2);
+    Ok(out)
+}
+fn do_fresh(name: &str, st: &mut St, p: Primitive, next: usize) -> Option<R> {
+    Some(match name {
+        "Page" => roundtrip_fresh::<Page>(st, p, next),
+        "PostScriptDict" => roundtrip_fresh::<PostScriptDict>(st, p, next),
+        "ImageDict" => roundtrip_fresh::<ImageDict>(st, p, next),
+        "FormDict" => roundtrip_fresh::<FormDict>(st, p, next),
+        "SeedValueDictionary" => roundtrip_fresh::<SeedValueDictionary>(st, p, next),
+        "SignatureDictionary" => roundtrip_fresh::<SignatureDictionary>(st, p, next),
+        "SignatureReferenceDictionary" => roundtrip_fresh::<SignatureReferenceDictionary>(st, p, next),
+        "Annot" => roundtrip_fresh::<Annot>(st, p, next),
+        "FieldDictionary" => roundtrip_fresh::<FieldDictionary>(st, p, next),
+        "CIDFont" => roundtrip_fresh::<pdf::font::CIDFont>(st, p, next),
+        _ => return None,
+    })
+}
+
 /// stream dictionaries: StreamInfo<T>::from_primitive -> Stream<T> (no data) -> to_pdf_stream -> its dictionary
 fn step_stream<T: Object + ObjectWrite>(st: &mut St, p: Primitive) -> (Vec<Vec<u8>>, Option<Primitive>) {
     let v = { let r = st.resolver(); StreamInfo::<T>::from_primitive(p, &r) };
@@ -463,6 +500,13 @@ pub fn dispatch(mode: &str, f: &[Vec<u8>]) -> Option<R> {
             } else {
                 match do_roundtrip(&s(0), &mut st, p, objs.len() + 1) { Some(r) => r, None => return Some(Err("UnknownType".into())) }
             }
+        }
+        // type, value (canon), objects 1..n (canon)  ->  r1 w1 c1 r2 w2 c2, the first write from the value with its catch-all field emptied
+        "typed_fresh" => {
+            let p = match uncanon(crate::util::fld(f, 1)) { Some(p) => p, None => return Some(Err("BadCanon".into())) };
+            let objs = if f.len() > 2 { &f[2..] } else { &[][..] };
+            let mut st = match storage_with(objs) { Some(s) => s, None => return Some(Err("BadCanon".into())) };
+            match do_fresh(&s(0), &mut st, p, objs.len() + 1) { Some(r) => r, None => return Some(Err("UnknownType".into())) }
         }
         // opts, type, dictionary (canon), key, reference (canon), file  ->  rA wA cA | rB wB cB
         "dangling" => {
